@@ -23,11 +23,13 @@ Pool ==
             <<<<94,97>>, <<109>>, TRUE>>,                                     \* ^a /m          anchored search
             <<<<92,112,123,73,115,71,114,101,101,107,125,43>>, <<>>, TRUE>>,  \* \p{IsGreek}+   process-wide block table
             <<<<97,40,63,58,97,98,124,99,41,42,98>>, <<>>, TRUE>>,            \* a(?:ab|c)*b    a min-0 repeat of a non-nullable body
+            <<<<1096>>, <<105>>, TRUE>>,                                      \* U+0448 /i     case folding of a BMP letter after a
+                                                                              \*               supplementary one with the same low 16 bits
             <<<<94,97>>, <<>>, TRUE>>,                                        \* ^a            the same text under both dialects:
             <<<<94,97>>, <<>>, FALSE>>,                                       \* ^a (xsd)        an anchor here, a literal ^ there
             <<<<97,42>>, <<>>, FALSE>>,                                       \* a* (xsd)       matches the empty string
             <<<<40>>, <<>>, TRUE>> >>                                         \* (              does not compile
-Inputs == << <<97,98>>, <<97,97,98,99>>, <<945,97,65,10,97>>, <<>>, <<98,94,97>> >>
+Inputs == << <<97,98>>, <<97,97,98,99>>, <<945,97,65,10,97>>, <<>>, <<98,94,97>>, <<66600,1064>> >>
 Repls == << <<91,36,49,93>>, <<36>> >>                                        \* [$1] and an invalid one
 
 VARIABLE hist
